@@ -323,6 +323,24 @@ func (c *simClient) tamper(s *world.Server, now time.Time) gmsl.ServerKeys {
 	return sk
 }
 
+// onlyOldKeys builds a response in the server's name that lists no verify key
+// (so nothing signs it) and, under old_verify_keys, keys of somebody else's
+// making: its genuine key IDs with forged key material and a late expiry.
+func (c *simClient) onlyOldKeys(s *world.Server, now time.Time) gmsl.ServerKeys {
+	old := map[string]any{}
+	for _, k := range s.Keys {
+		old[string(k.ID)] = map[string]any{"key": spec.Base64Bytes(c.w.rogue.Current().Pub).Encode(), "expired_ts": spec.AsTimestamp(now.Add(1000 * time.Hour))}
+	}
+	obj := map[string]any{"server_name": string(s.Name), "valid_until_ts": spec.AsTimestamp(now.Add(24 * time.Hour)), "old_verify_keys": old}
+	if c.w.r.T.Bool() {
+		obj["verify_keys"] = map[string]any{}
+	}
+	raw, _ := json.Marshal(obj)
+	var sk gmsl.ServerKeys
+	json.Unmarshal(raw, &sk)
+	return sk
+}
+
 // respond produces what server `name` (or somebody answering in its place)
 // returns to a direct key request, with a tape-chosen fault.
 func (c *simClient) respond(name spec.ServerName) (*respRec, error) {
@@ -336,7 +354,10 @@ func (c *simClient) respond(name spec.ServerName) (*respRec, error) {
 	if !t.Chance(c.faultRate) {
 		return &respRec{good: true, server: name, keys: s.KeyResponse(now)}, nil
 	}
-	switch t.Intn(6) {
+	switch t.Intn(7) {
+	case 5: // no verify key signs the response: only retired keys are listed
+		c.w.r.Fault("response_without_verify_keys")
+		return &respRec{kind: "no_verify_keys", server: name, keys: c.onlyOldKeys(s, now)}, nil
 	case 0:
 		c.w.r.Fault("conn_refused")
 		return nil, errors.New("simnet: connection refused")
